@@ -53,6 +53,9 @@ func (f *When) Call(s *slip.Scope, args slip.List, depth int) (result slip.Objec
 	if slip.EvalArg(s, args, pos, d2) != nil {
 		for pos++; pos < len(args); pos++ {
 			result = slip.EvalArg(s, args, pos, d2)
+			if _, ok := result.(slip.NonLocalExit); ok {
+				return
+			}
 		}
 	}
 	return
